@@ -94,7 +94,10 @@ fn merge_from_client<T>(client: &T, server: &T) -> Result<T>
 	where
 		T: Debug + Clone + PartialEq,
 {
-	pretty_assertions::assert_eq!(client, server);
+	// TODO: decide how to merge; until then a difference is an error of the input pair, not a bug of this crate
+	if client != server {
+		bail!("merging differing values by taking the client's is not implemented: client {client:?} and server {server:?}");
+	}
 	Ok(client.clone())
 }
 
@@ -197,8 +200,7 @@ fn class_merger_merge(client: ClassFile, server: ClassFile) -> Result<ClassFile>
 				|inner_class| inner_class.inner_class.clone(),
 				|inner_class, _| Ok(inner_class.clone()),
 				|client, server| {
-					pretty_assertions::assert_eq!(client, server);
-					panic!();
+					bail!("cannot merge not equal inner class entries of client {client:?} and server {server:?}");
 				}
 			)?;
 			if inner_classes.is_empty() {
